@@ -820,8 +820,21 @@ def smgen_cases(rng, n):
     out.append(case(F, cross([1, 2, 3], [2, 3]), "A", ["smgen", "asymmetric-transition", "crossed"], "smg-dir-crossed"))
     out.append(case(F, cross([1, 2, 3], [1, 3]), "A", ["smgen", "asymmetric-transition", "crossed"], "smg-dir-crossed-src"))
     out.append(case(F, cross([1, 2, 3], [1, 2]), "A", ["smgen", "asymmetric-transition"], "smg-dir-uncrossed"))
+    # weights on levels of crossed derived factors (first / later level), of crossed basic factors, three-level weights
+    G = [basic("color", 2), basic("size", 2)]
+    for wname, ws in (("w21", [2, 1]), ("w12", [1, 2]), ("w13", [1, 3])):
+        Gt = G + [derived(G, "rep", [1], "transition", table=eq_table(G, [1], 2), w=ws)]
+        out.append(case(Gt, cross([1, 2, 3], [2, 3]), "A", ["smgen", "weighted-transition", "crossed"], "smg-trans-%s" % wname))
+        Gw = G + [derived(G, "cong", [1, 2], "within", table=eq_table(G, [1, 2]), w=ws)]
+        out.append(case(Gw, cross([1, 2, 3], [3]), "A", ["smgen", "weighted-within", "crossed"], "smg-within-%s" % wname))
+    F3w = [basic("color", 3), basic("size", 2)]
+    F3w.append(derived(F3w, "dir", [1], "transition", nl=3, table=tab, w=[2, 1, 3]))
+    out.append(case(F3w, cross([1, 2, 3], [2, 3]), "A", ["smgen", "weighted-transition", "three-levels"], "smg-dir-w213"))
+    Gb = [basic("color", 2, [1, 2]), basic("size", 3, [1, 1, 2])]
+    out.append(case(Gb, cross([1, 2], [1, 2]), "A", ["smgen", "weighted-basic"], "smg-basic-weights"))
     tries = 0
-    while len(out) < n + 3 and tries < n * 30:
+    base = len(out)
+    while len(out) < n + base and tries < n * 30:
         tries += 1
         F = [basic("a", rng.choice([2, 3])), basic("b", 2)]
         if rng.random() < 0.5:
